@@ -27,7 +27,7 @@ func TestC14Binary(t *testing.T) {
 	if _, err := os.Stat(bin); err != nil {
 		t.Skipf("prunner binary not built: %v", err)
 	}
-	col := ev.Get("C14", "binary", "the real prunner binary (go build ./cmd/prunner from the tree under test) listening on a TCP port, with the secret configured in one of the ways the program offers (--jwt-secret, PRUNNER_JWT_SECRET, jwt_secret in the config file, or none of these: the program then makes one up and writes it to the config file, from where the harness reads it), with profiling enabled or disabled in one of the ways the CLI offers (flag absent, --enable-profiling[=true|false], PRUNNER_ENABLE_PROFILING=true|1|false|0); requests over the socket to the documented API routes, the profiling paths (/debug/pprof/, /debug/pprof/cmdline, /debug/pprof/heap, /debug/pprof/goroutine, /debug/vars, /debug/) and a few undocumented paths, without a token, with garbage, with a token signed with another secret or with the empty key, with an expired token (header or cookie); oracle: API routes answer 401; with profiling disabled the profiling paths answer 404 and nothing but the API answers 2xx; with profiling enabled they answer 200 without a token; the body never contains the secret; a valid token is accepted (positive control) and afterwards exactly the jobs scheduled with it exist; non-trivial = every case; distinct by (profiling, credential, path)")
+	col := ev.Get("C14", "binary", "the real prunner binary (go build ./cmd/prunner from the tree under test) listening on a TCP port, with the secret configured in one of the ways the program offers (--jwt-secret, PRUNNER_JWT_SECRET, jwt_secret in the config file, or none of these: the program then makes one up and writes it to the config file, from where the harness reads it; or --jwt-secret / PRUNNER_JWT_SECRET while the config file of an earlier run with another secret is still there - the documentation uses the file only 'if jwt-secret is not set', so a token signed with the left-over secret is an invalid credential), with profiling enabled or disabled in one of the ways the CLI offers (flag absent, --enable-profiling[=true|false], PRUNNER_ENABLE_PROFILING=true|1|false|0); requests over the socket to the documented API routes, the profiling paths (/debug/pprof/, /debug/pprof/cmdline, /debug/pprof/heap, /debug/pprof/goroutine, /debug/vars, /debug/) and a few undocumented paths, without a token, with garbage, with a token signed with another secret or with the empty key, with an expired token (header or cookie); oracle: API routes answer 401; with profiling disabled the profiling paths answer 404 and nothing but the API answers 2xx; with profiling enabled they answer 200 without a token; the body never contains the secret; a valid token is accepted (positive control) and afterwards exactly the jobs scheduled with it exist; non-trivial = every case; distinct by (profiling, credential, path)")
 	other := jwtauth.New("HS256", []byte("another-secret-0123456789abcdef"), nil)
 	_, wrongToken, _ := other.Encode(map[string]interface{}{"sub": "bin"})
 	_, emptyKeyToken, _ := jwtauth.New("HS256", []byte(""), nil).Encode(map[string]interface{}{"sub": "bin"})
@@ -47,12 +47,22 @@ func TestC14Binary(t *testing.T) {
 		// where the secret is configured: on the command line, in the environment, in the config file, or nowhere
 		// (the program then creates the config file with a secret of its own)
 		secret := "case-secret-" + rapid.StringMatching(`[a-zA-Z0-9]{8,24}`).Draw(rt, "secret")
-		secretHow := rapid.SampledFrom([]string{"flag", "env", "file", "generated"}).Draw(rt, "secretConfiguredBy")
+		secretHow := rapid.SampledFrom([]string{"flag", "env", "file", "generated", "flag+left-over-file", "env+left-over-file"}).Draw(rt, "secretConfiguredBy")
 		var extraEnv []string
+		// "left-over file": the config file of an earlier run (which had made up a secret) is still there, and
+		// the operator now passes a secret explicitly. The documentation says the file is created and used "if
+		// jwt-secret is not set", so the explicit one is the configured secret and the old one opens nothing.
+		leftOver := ""
+		if strings.HasSuffix(secretHow, "+left-over-file") {
+			leftOver = "left-over-" + rapid.StringMatching(`[a-zA-Z0-9]{16,24}`).Draw(rt, "leftOverSecret")
+			if err := os.WriteFile(filepath.Join(dir, "cfg.yml"), []byte("jwt_secret: "+leftOver+"\n"), 0o600); err != nil {
+				rt.Fatalf("write: %v", err)
+			}
+		}
 		switch secretHow {
-		case "flag":
+		case "flag", "flag+left-over-file":
 			args = append(args, "--jwt-secret", secret)
-		case "env":
+		case "env", "env+left-over-file":
 			extraEnv = append(extraEnv, "PRUNNER_JWT_SECRET="+secret)
 		case "file":
 			if err := os.WriteFile(filepath.Join(dir, "cfg.yml"), []byte("jwt_secret: "+secret+"\n"), 0o600); err != nil {
@@ -138,25 +148,31 @@ func TestC14Binary(t *testing.T) {
 		auth := jwtauth.New("HS256", []byte(secret), nil)
 		_, token, _ := auth.Encode(map[string]interface{}{"sub": "bin"})
 		_, expired, _ := auth.Encode(map[string]interface{}{"sub": "bin", "exp": time.Now().Add(-time.Hour).Unix()})
+		leftOverToken := wrongToken
+		if leftOver != "" {
+			_, leftOverToken, _ = jwtauth.New("HS256", []byte(leftOver), nil).Encode(map[string]interface{}{"sub": "bin"})
+		}
 		// wait for the listener (a request that needs a token)
 		for {
-			if code, _ := do("GET", "/pipelines/", token, "header"); code == 200 {
+			code, _ := do("GET", "/pipelines/", token, "header")
+			if code == 200 {
 				break
 			}
-			if time.Now().After(deadline) {
-				for name, cred := range map[string]string{"wrong-secret": wrongToken, "signed-with-empty-key": emptyKeyToken} {
+			if code == 401 || time.Now().After(deadline) {
+				// the server is up and refuses the token signed with the configured secret: whom does it let in?
+				for name, cred := range map[string]string{"wrong-secret": wrongToken, "signed-with-empty-key": emptyKeyToken, "signed-with-left-over-file-secret": leftOverToken} {
 					if code, _ := do("GET", "/pipelines/", cred, "header"); code == 200 {
 						rt.Fatalf("[C14] secret configured by %s: GET /pipelines/ with credential %q -> 200 (and a token signed with the configured secret is refused)", secretHow, name)
 					}
 				}
-				rt.Fatalf("positive control: the binary does not answer on %s (secret configured by %s): %s", addr, secretHow, clipS(logs.String()))
+				rt.Fatalf("positive control: the binary does not answer on %s (secret configured by %s, status %d): %s", addr, secretHow, code, clipS(logs.String()))
 			}
 			time.Sleep(20 * time.Millisecond)
 		}
-		creds := map[string]string{"none": "", "garbage": "not.a.token", "wrong-secret": wrongToken, "expired": expired, "empty-bearer": " ", "signed-with-empty-key": emptyKeyToken}
+		creds := map[string]string{"none": "", "garbage": "not.a.token", "wrong-secret": wrongToken, "expired": expired, "empty-bearer": " ", "signed-with-empty-key": emptyKeyToken, "signed-with-left-over-file-secret": leftOverToken}
 		n := rapid.IntRange(8, 20).Draw(rt, "probes")
 		for i := 0; i < n; i++ {
-			credName := rapid.SampledFrom([]string{"none", "none", "garbage", "wrong-secret", "expired", "empty-bearer", "signed-with-empty-key"}).Draw(rt, "credential")
+			credName := rapid.SampledFrom([]string{"none", "none", "garbage", "wrong-secret", "expired", "empty-bearer", "signed-with-empty-key", "signed-with-left-over-file-secret"}).Draw(rt, "credential")
 			transport := rapid.SampledFrom([]string{"header", "cookie"}).Draw(rt, "transport")
 			kind := rapid.SampledFrom([]string{"api", "api", "debug", "debug", "other"}).Draw(rt, "pathKind")
 			var code int
